@@ -44,6 +44,23 @@ func ruleR22(c *Ctx) *RuleResult {
 		addOb(r, "R22", tk+".Peek", "Peek returns the element in slot 0 (the heap's minimum) and changes nothing", p.FuncPos(fn), bad, "return list.Get(0)")
 	}
 	// Pop
+	// the sifting functions by role (R41 finds them by what they swap, whatever they are called)
+	downFns, upFns := heapSifters(c)
+	downNames, upNames := map[string]bool{}, map[string]bool{}
+	for _, f := range downFns {
+		downNames[fnName(f)] = true
+	}
+	for _, f := range upFns {
+		upNames[fnName(f)] = true
+	}
+	hasDown := func(cs []string) bool {
+		for _, x := range cs {
+			if downNames[x] {
+				return true
+			}
+		}
+		return false
+	}
 	if fn := ms["Pop"]; fn != nil {
 		var bad []string
 		nok := 0
@@ -67,7 +84,7 @@ func ruleR22(c *Ctx) *RuleResult {
 			nok++
 			cs := effCallees(g)
 			// sifting down from the root: bubbleDown() or, written out, bubbleDownIndex(0)
-			if len(cs) == 3 && cs[2] == "bubbleDownIndex" && len(g.Effects) >= 3 {
+			if len(cs) == 3 && downNames[cs[2]] && len(g.Effects) >= 3 {
 				if _, a, ok := effDo(g.Effects[len(g.Effects)-1]); ok && len(a) == 2 && a[0].String() == "p:0" && a[1].String() == "#:0" {
 					cs[2] = "bubbleDown"
 				}
@@ -108,7 +125,7 @@ func ruleR22(c *Ctx) *RuleResult {
 			}
 			switch {
 			case one:
-				if strings.Join(cs, ",") != "Add,bubbleUp" {
+				if !(len(cs) == 2 && cs[0] == "Add" && upNames[cs[1]]) {
 					bad = append(bad, "pushing one value must append it and sift up, found: "+strings.Join(cs, ","))
 				} else {
 					single = true
@@ -118,7 +135,7 @@ func ruleR22(c *Ctx) *RuleResult {
 				if len(cs) != 1 || g.Exit.Op != "goto" {
 					bad = append(bad, "the bulk path must append every value before heapifying")
 				}
-			case containsStr(cs, "bubbleDownIndex"):
+			case hasDown(cs):
 				// for i := start; i >= 0; i-- { bubbleDownIndex(i) }
 				okGuard := false
 				for _, a := range g.Guards {
@@ -139,7 +156,7 @@ func ruleR22(c *Ctx) *RuleResult {
 		// the list's size after the appends — not the number of pushed values)
 		heapCut := ""
 		for _, g := range c.GC(fn).GCs {
-			if containsStr(effCallees(g), "bubbleDownIndex") {
+			if hasDown(effCallees(g)) {
 				heapCut = itoa(g.From)
 			}
 		}
@@ -158,6 +175,19 @@ func ruleR22(c *Ctx) *RuleResult {
 				}
 				return false
 			})
+			// the start as a closed arithmetic expression over the heap's own size n: it must reach the parent of the last
+			// slot, start(n) >= n/2 - 1, for every n (decided by evaluating both sides with Go's integer semantics for
+			// n = 0..64: with one size atom, constants below 16 and divisions by 2 only, both sides are linear on each
+			// parity class beyond the constants, so 64 values decide all n)
+			if okExpr, verdict, cex := heapifyStartCovers(stT); okExpr {
+				if !verdict {
+					bad = append(bad, fmt.Sprintf("the heapify loop starts at %s, which is below the parent of the last slot (n/2-1) for n = %d: that node is never sifted down", trunc(st, 120), cex))
+				}
+				if g.From == 0 && !containsStr(effCallees(g), "Add") {
+					bad = append(bad, "the heapify loop is entered without appending the values first")
+				}
+				continue
+			}
 			switch {
 			case half == nil:
 				bad = append(bad, "the heapify loop does not start from n/2: "+trunc(st, 120))
@@ -182,9 +212,17 @@ func ruleR22(c *Ctx) *RuleResult {
 	for _, nm := range []string{"bubbleUp", "bubbleDownIndex"} {
 		fn := ms[nm]
 		if fn == nil {
-			continue
+			// the role under another name
+			cands := upFns
+			if nm == "bubbleDownIndex" {
+				cands = downFns
+			}
+			if len(cands) == 0 {
+				continue
+			}
+			fn = cands[0]
 		}
-		var bad []string
+		var bad, badStrict []string
 		nswap := 0
 		for _, g := range c.GC(fn).GCs {
 			for _, ef := range g.Effects {
@@ -192,19 +230,33 @@ func ruleR22(c *Ctx) *RuleResult {
 				if !ok {
 					continue
 				}
+				if n2 == fnName(fn) {
+					continue // the recursion that continues the sift
+				}
 				if n2 != "Swap" {
 					bad = append(bad, nm+" calls "+n2)
 					continue
 				}
 				nswap++
+				// C11 only: a swap needs a *strict* verdict — re-heapifying an array that already is a heap (what the loader
+				// does with the serialized form) must move nothing, or the loaded heap differs from the one that was saved
+				strictly := false
+				for _, a := range g.Guards {
+					if a.Op == "<" && len(a.Args) == 2 && ((a.Args[0].String() == "#:0" && a.Args[1].Op == "dyn") || (a.Args[1].String() == "#:0" && a.Args[0].Op == "dyn")) {
+						strictly = true
+					}
+				}
+				if !strictly {
+					badStrict = append(badStrict, nm+" swaps two elements without a strict comparator verdict: elements that compare equal are exchanged, so heapifying an array that already is a heap does not reproduce it")
+				}
 				strict := false
 				for _, a := range g.Guards {
-					if a.Op == "<" && a.Args[0].String() == "#:0" && a.Args[1].Op == "dyn" {
-						strict = true
+					if (a.Op == "<" || a.Op == "<=") && len(a.Args) == 2 && (a.Args[0].Op == "dyn" || a.Args[1].Op == "dyn") && (a.Args[0].String() == "#:0" || a.Args[1].String() == "#:0") {
+						strict = true // a comparator verdict (its orientation and sufficiency are R41's)
 					}
 				}
 				if !strict {
-					bad = append(bad, nm+" swaps without a strict comparator verdict (elements that compare equal would be reordered for nothing, or the order breaks)")
+					bad = append(bad, nm+" swaps without a comparator verdict")
 				}
 				// the loop continues from the slot it swapped into
 				if g.Exit.Op == "goto" {
@@ -223,7 +275,8 @@ func ruleR22(c *Ctx) *RuleResult {
 		if nswap == 0 {
 			bad = append(bad, "no swap found in "+nm)
 		}
-		addOb(r, "R22", tk+"."+nm, "the sift routine swaps only on a strict comparator verdict and follows the element it moves", p.FuncPos(fn), bad, fmt.Sprintf("%d swap path(s)", nswap))
+		addOb(r, "R22", tk+"."+nm, "the sift routine swaps only on a comparator verdict and follows the element it moves", p.FuncPos(fn), bad, fmt.Sprintf("%d swap path(s)", nswap))
+		addOb(r, "R22s", tk+"."+nm, "the sift routine exchanges two elements only on a strict comparator verdict (re-heapifying a heap is the identity: the JSON form of a heap loads back as that heap)", p.FuncPos(fn), badStrict, fmt.Sprintf("%d swap path(s), all strict", nswap))
 	}
 	// Values() is filled from the heap's own iterator
 	if fn := ms["Values"]; fn != nil {
@@ -610,4 +663,65 @@ func exprTermOf(c *Ctx, fn *ssa.Function) *Term {
 		return nil
 	}
 	return stripEpochs(t)
+}
+
+// heapifyStartCovers: t is an arithmetic expression over exactly one size atom (len/Size of the heap's own list), integer
+// constants |c| < 16, +, -, *c, /2, >>1. Returns (parsed, start(n) >= n/2-1 for all n in 0..64, counterexample).
+func heapifyStartCovers(t *Term) (bool, bool, int) {
+	sizeAtom := ""
+	var eval func(t *Term, n int) (int, bool)
+	eval = func(t *Term, n int) (int, bool) {
+		if k, ok := t.constInt(); ok {
+			if k > 15 || k < -15 {
+				return 0, false
+			}
+			return int(k), true
+		}
+		s := noEpoch(t)
+		isSz := strings.Contains(s, "(fa:list p:0)") && ((t.Op == "len" && strings.Contains(s, "(fa:elements ")) || (t.Op == "call" && strings.HasSuffix(t.Leaf, ").Size")))
+		if isSz {
+			if sizeAtom != "" && sizeAtom != s {
+				return 0, false
+			}
+			sizeAtom = s
+			return n, true
+		}
+		if len(t.Args) != 2 {
+			return 0, false
+		}
+		a, ok1 := eval(t.Args[0], n)
+		b, ok2 := eval(t.Args[1], n)
+		if !ok1 || !ok2 {
+			return 0, false
+		}
+		switch t.Op {
+		case "+":
+			return a + b, true
+		case "-":
+			return a - b, true
+		case "*":
+			return a * b, true
+		case "/":
+			if _, isC := t.Args[1].constInt(); !isC || b != 2 {
+				return 0, false
+			}
+			return a / b, true
+		case ">>":
+			if _, isC := t.Args[1].constInt(); !isC || b != 1 {
+				return 0, false
+			}
+			return a >> 1, true
+		}
+		return 0, false
+	}
+	for n := 0; n <= 64; n++ {
+		v, ok := eval(t, n)
+		if !ok || sizeAtom == "" {
+			return false, false, 0
+		}
+		if v < n/2-1 {
+			return true, false, n
+		}
+	}
+	return true, true, 0
 }
